@@ -21,6 +21,7 @@ mod bcmodel;
 mod p09;
 mod p10;
 mod p11;
+mod p12;
 mod p13;
 mod p14;
 mod refval;
@@ -41,6 +42,7 @@ fn make(id: &str, tier: Tier) -> Option<Box<dyn Property>> {
         "C14" => Box::new(p14::P14::new(tier)),
         "C08" => Box::new(p08::P08::new(tier)),
         "C11" => Box::new(p11::P11::new(tier)),
+        "C12" => Box::new(p12::P12::new(tier)),
         "C09" => Box::new(p09::P09::new(tier)),
         _ => return None,
     })
